@@ -292,6 +292,8 @@ def try_known(v):
     for _ in range(6):
         if not isinstance(v, tuple) or not v:
             return None
+        if v[0] == 'residual':
+            return 1     # the value an inlined helper returned through its own failing `?`
         if v[0] == 'agg':
             if v[1].endswith(('Result::Ok', 'Option::Some')):
                 return 0
@@ -301,6 +303,11 @@ def try_known(v):
         if v[0] == 'call' and v[1].split('::')[-1] in ('with_span', 'map_err', 'with_file') and v[2]:
             v = v[2][0]
             continue
+        if v[0] == 'call' and v[1].split('::')[-1] == 'map' and ('Result' in v[1] or 'Option' in v[1]) and v[2]:
+            v = v[2][0]      # x.map(f) is Ok/Some exactly when x is
+            continue
+        if v[0] == 'call' and v[1].split('::')[-1] == 'transpose' and v[2] and isinstance(v[2][0], tuple) and v[2][0][0] == 'agg' and v[2][0][1].endswith('Option::None'):
+            return 0         # None.transpose() = Ok(None)
         return None
     return None
 
@@ -408,7 +415,7 @@ class Explorer:
                     if idx < len(v[1][2]):
                         v = v[1][2][idx]
                         continue
-                if v[0] == 'agg' and (v[1] in ('tuple', 'array') or v[1].startswith('adt:')):
+                if v[0] == 'agg' and (v[1] in ('tuple', 'array') or v[1].startswith(('adt:', 'closure:'))):
                     try:
                         idx = int(p[1:].split(':')[0])
                     except ValueError:
@@ -598,6 +605,11 @@ class Explorer:
                         dl = t['dest']['l']
                         if not t['dest']['p'] and dl < len(fn.locals) and fn.locals[dl] in ('()', '!'):
                             eff = True
+                        if eff and not self.keep_site and val[0] == 'call' and fn.locals[dl] not in ('()', '!'):
+                            # a second `it.next()` / `stack.pop()` with the same receiver is a different value
+                            occ = 1 + sum(1 for e0 in p.events if e0[0] == 'call' and e0[1] == callee and e0[2] == a)
+                            if occ > 1:
+                                val = val[:5] + (occ,)
                         p.events.append(('call', callee, a, t.get('line', 0), p.bb, len(p.conds), eff))
                         if self.on_call:
                             r = self.on_call(self, p, callee, a, t)
@@ -710,9 +722,11 @@ def sv(v, depth=0):
         return 'residual(' + sv(v[1], depth + 1) + ')'
     if k == 'call':
         n = v[1].split('::')[-1]
-        return n + '(' + ', '.join(sv(a, depth + 1) for a in v[2]) + ')'
+        return n + ('#%d' % v[5] if len(v) > 5 and v[5] else '') + '(' + ', '.join(sv(a, depth + 1) for a in v[2]) + ')'
     if k == 'field':
         return sv(v[1], depth) + '.' + v[2]
+    if k == 'lam':
+        return 'λ' + str(v[1]) + '.' + sv(v[2], depth + 1)
     if k == 'upd':
         return sv(v[1], depth) + '{' + ', '.join('%s: %s' % (f, sv(x, depth + 1)) for f, x in v[2]) + '}'
     if k == 'idx':
